@@ -457,6 +457,11 @@ func (m *Machine) visitInstr(fr *frame, instr ssa.Instruction) continuation {
 		if lenv > capv {
 			m.rtPanic("makeslice: len out of range")
 		}
+		if capv > 4096 && capv > 4*lenv+4096 {
+			// pre-sized buffers (pools of 1M entries): a smaller backing array; only cap() could tell
+			m.stubs["makeslice: capacity hint above 4096 not honoured"]++
+			capv = 4*lenv + 4096
+		}
 		s := make([]Value, capv)
 		tElt := instr.Type().Underlying().(*types.Slice).Elem()
 		z := zero(tElt)
